@@ -52,29 +52,40 @@ import numba.core.caching as _c  # noqa: E402
 if not getattr(_c.IndexDataCacheFile, "_verif_locked", False):
     _orig_save = _c.IndexDataCacheFile.save
     _orig_load = _c.IndexDataCacheFile.load
+    _held = {"depth": 0, "fh": None}  # re-entrant within the process: a load can trigger a nested compile + save
 
-    def _lockfile(self):
-        return open(os.path.join(os.path.dirname(self._index_path), ".verif.lock"), "a+")
+    class _CacheLock:
+        def __init__(self, cachefile):
+            self.dir = os.path.dirname(cachefile._index_path)
+
+        def __enter__(self):
+            if _held["depth"] == 0:
+                try:
+                    # one lock for the whole cache tree (nested loads/saves touch other directories)
+                    fh = open(os.path.join(os.environ.get("NUMBA_CACHE_DIR", self.dir), ".verif.lock"), "a+")
+                    fcntl.flock(fh, fcntl.LOCK_EX)
+                    _held["fh"] = fh
+                except OSError:
+                    _held["fh"] = None
+            _held["depth"] += 1
+
+        def __exit__(self, *a):
+            _held["depth"] -= 1
+            if _held["depth"] == 0 and _held["fh"] is not None:
+                try:
+                    fcntl.flock(_held["fh"], fcntl.LOCK_UN)
+                finally:
+                    _held["fh"].close()
+                    _held["fh"] = None
+            return False
 
     def _save(self, key, data):
-        with _lockfile(self) as lf:
-            fcntl.flock(lf, fcntl.LOCK_EX)
-            try:
-                return _orig_save(self, key, data)
-            finally:
-                fcntl.flock(lf, fcntl.LOCK_UN)
+        with _CacheLock(self):
+            return _orig_save(self, key, data)
 
     def _load(self, key):
-        try:
-            lf = _lockfile(self)
-        except OSError:
+        with _CacheLock(self):
             return _orig_load(self, key)
-        with lf:
-            fcntl.flock(lf, fcntl.LOCK_SH)
-            try:
-                return _orig_load(self, key)
-            finally:
-                fcntl.flock(lf, fcntl.LOCK_UN)
 
     _c.IndexDataCacheFile.save = _save
     _c.IndexDataCacheFile.load = _load
